@@ -633,6 +633,39 @@ def docShape (mshapes dshapes : List (List Nat)) (ndim : Nat) : Option (List Nat
   | some m, some d => (bcast m d).map (· ++ [ndim])
   | _, _ => none
 
+/-! ## `rotation_matrix_from_to` with ALL its branches (round 4)
+
+The function as coded, on the RAW (not yet normalised) arguments: zero test, normalisation,
+and in 3-d the collinear branch (`‖u × v‖ < 1e-10`: `axis_rotation_matrix(
+perpendicular_vector(u), 0 or π)`) next to the generic one.  `tol2 = (1e-10)²`,
+`(cpi, spi) = (cos π, sin π)` as evaluated by the code (floats: `(-1, 1.22e-16)`). -/
+
+/-- `perpendicular_vector(v)` in 3-d before its normalisation: `(1,0,0)` if `v₀ = v₁ = 0`,
+else `(-v₁, v₀, 0)`. -/
+def perp3 [DecidableEq K] (v : V3 K) : V3 K :=
+  if v.x = 0 ∧ v.y = 0 then ⟨1, 0, 0⟩ else ⟨-v.y, v.x, 0⟩
+
+/-- `rotation_matrix_from_to(u0, v0)` for 3-vectors; `none` = raises `ValueError` (one of the
+vectors is shorter than `1e-10`). -/
+def rotFromToCode3 [Div K] [LT K] [DecidableLT K] [DecidableEq K] (sqrt : K → K)
+    (tol2 cpi spi : K) (u0 v0 : V3 K) : Option (M3 K) :=
+  if u0.normSq < tol2 ∨ v0.normSq < tol2 then none else
+  let u := V3.normalize sqrt u0
+  let v := V3.normalize sqrt v0
+  if (V3.cross u v).normSq < tol2 then
+    let n := V3.normalize sqrt (perp3 u)
+    if 0 < V3.dot u v then some (axisRot n 1 0) else some (axisRot n cpi spi)
+  else some (rotFromTo u v)
+
+/-- `rotation_matrix_from_to(u0, v0)` for 2-vectors.  The code computes an angle
+(`±π/2` if `⟨u,v⟩ = 0`, `π` if `v = -u`, else `arctan2(⟨u⊥,v⟩, ⟨u,v⟩)`) and returns
+`[[cos, -sin], [sin, cos]]` of it; for unit vectors `(cos, sin) = (⟨u,v⟩, ⟨u⊥,v⟩)` in all
+three branches, which is what `rotFromTo2` evaluates. -/
+def rotFromToCode2 [Div K] [LT K] [DecidableLT K] (sqrt : K → K) (tol2 : K) (u0 v0 : V2 K) :
+    Option (M2 K) :=
+  if u0.normSq < tol2 ∨ v0.normSq < tol2 then none else
+  some (rotFromTo2 (V2.normalize sqrt u0) (V2.normalize sqrt v0))
+
 end ops
 
 end OdlModel.Geometry
